@@ -31,10 +31,21 @@ func init() {
 					cs = append(cs, mkCase("", "c07", "HIdm", cfg, m, n))
 				}
 			}
-			return []group{{Tags: "", Pkgs: []string{"c07"}, Cases: cs}}
+			// (b) schedules: two-goroutine programs of the C06 harness; the engine reports
+			// a schedule in which no goroutine can run as a deadlock
+			scfg := engine.DefaultConfig()
+			scfg.Preempt = 2
+			scfg.Budget = 6000000
+			sops := []int64{0, 3, 4, 5, 7, 8, 10, 11, 12, 13}
+			if tier == "thorough" {
+				sops = allOps
+				scfg.Preempt = 3
+			}
+			sched := pairCases(scfg, []int64{0, 1}, sops)
+			return []group{{Tags: "", Pkgs: []string{"c07"}, Cases: cs}, {Tags: "", Pkgs: []string{"c06"}, Cases: sched}}
 		},
-		Reach:       []string{"vfs-call", "file-call", "idm-call"},
-		Explanation: "Bounded symbolic execution of every exported VFS method (43), File method (17) and MemIdm method (10) of MemFS, OrefaFS, RoFS, BasePathFS and FailFS with adversarial operands (root, directory and descendant, identical source and destination, empty, relative, unclean, missing, below-a-file, symlink) and fully symbolic integers (flags, modes, uid/gid, sizes, offsets, whence, counts); assertion: the call returns without panic; a single-thread deadlock (re-locking a held mutex) and a path exceeding the instruction budget are reported by the engine; probe calls after each call detect locks left held.",
+		Reach:       []string{"vfs-call", "file-call", "idm-call", "concurrent"},
+		Explanation: "Bounded symbolic execution of every exported VFS method (43), File method (17) and MemIdm method (10) of MemFS, OrefaFS, RoFS, BasePathFS and FailFS with adversarial operands (root, directory and descendant, identical source and destination, empty, relative, unclean, missing, below-a-file, symlink) and fully symbolic integers (flags, modes, uid/gid, sizes, offsets, whence, counts); assertion: the call returns without panic; a single-thread deadlock (re-locking a held mutex) and a path exceeding the instruction budget are reported by the engine; probe calls after each call detect locks left held. (b) Schedules: the two-goroutine programs of the C06 harness (pairs of namespace calls on one shared tree) under every interleaving at lock granularity within the pre-emption bound: a state in which every live goroutine waits for a lock is reported as a deadlock.",
 		Bounds: func(tier string) map[string]any {
 			return map[string]any{"calls_per_history": "1 call (+ optional Seek before File methods) + probe calls", "operand_universe": 14, "handle_states": 7, "buffer_lengths": "0..2", "idm_name_length": map[string]int{"quick": 2, "thorough": 3}[tier], "instruction_budget": 400000,
 				"outside": "longer histories; allocations above 64 elements with symbolic size (CUT); concurrent schedules (C06/C08 harnesses)"}
